@@ -402,11 +402,54 @@ static void mode_iface(args const &a)
 	O().count("histories");
 }
 
+// a LARGE entry limit on a small shared segment: the index tables themselves take a good part of the memory, so clear()
+// (which re-creates them) and the out-of-memory fallback of store() can fail half way. Whatever they report, the cache must
+// stay a cache: nothing cleared may be served, the counts must agree with the dump, and later operations must work.
+static void mode_bigtable(args const &a)
+{
+	rng r(a.num("seed", 1));
+	static unsigned const limits[] = { 1024, 2048, 4096, 8192, 20000 };
+	static size_t const mems[] = { 512 << 10, 1 << 20 };
+	for (unsigned limit : limits) for (size_t mem : mems) {
+		booster::intrusive_ptr<base_cache> c;
+		try { c = cppcms::impl::process_cache_factory(mem, limit); } catch (std::exception const &e) { O().count("bigtable_configs_refused"); continue; }
+		std::string rp = "{\"mode\":\"bigtable\",\"memory\":" + std::to_string(mem) + ",\"limit\":" + std::to_string(limit) + "}";
+		for (int round = 0; round < 3; round++) {
+			int n = r.range(500, 4000);
+			long stores_threw = 0;
+			for (int i = 0; i < n; i++) {
+				std::set<std::string> tr; for (int t = 0; t < 5; t++) tr.insert("t" + std::to_string(r.below(50)));
+				try { c->store("key" + std::to_string(i), "v" + std::to_string(i) + std::string(r.below(40), 'x'), tr, (time_t)(vclock::now() + 1000)); } catch (std::bad_alloc const &) { stores_threw++; }
+			}
+			bool threw = false;
+			try { c->clear(); } catch (std::bad_alloc const &) { threw = true; }
+			O().count(threw ? "bigtable_clear_threw" : "bigtable_clear_ok"); O().count("bigtable_rounds"); O().count("ops", n + 1);
+			if (stores_threw) O().count("bigtable_stores_threw", stores_threw);
+			verif_cache_dump_result d;
+			if (!cppcms::impl::verif_cache_dump(c.get(), d)) { O().viol("harness:dump-hook-unavailable", ""); return; }
+			unsigned sk = 0, st = 0; c->stats(sk, st);
+			if (!d.inconsistency.empty()) { O().viol("cache:index-inconsistent-after-clear", d.inconsistency + (threw ? " (clear() threw bad_alloc)" : ""), rp); break; }
+			if (!d.lru_order.empty() || sk != 0 || st != 0) { O().viol("cache:clear-left-entries-or-counts", "entries=" + std::to_string(d.lru_order.size()) + " stats keys=" + std::to_string(sk) + " triggers=" + std::to_string(st) + (threw ? " (clear() threw bad_alloc)" : ""), rp); break; }
+			std::string v;
+			for (int i = 0; i < 20; i++) if (c->fetch("key" + std::to_string(r.below((uint32_t)n)), v)) { O().viol("cache:hit-for-removed-or-invalidated-key", "after clear()", rp); break; }
+			// the cache keeps working: raise every trigger, store and fetch again
+			for (int t = 0; t < 50; t++) c->rise("t" + std::to_string(t));
+			std::set<std::string> tr; tr.insert("t1");
+			bool again = true;
+			try { c->store("after", "value", tr, (time_t)(vclock::now() + 1000)); } catch (std::bad_alloc const &) { again = false; }
+			if (again && (!c->fetch("after", v) || v != "value")) O().viol("cache:store-lost", "first store after clear()", rp);
+			try { c->clear(); } catch (std::bad_alloc const &) {}
+		}
+		O().seen("states", mix(limit, mem));
+	}
+}
+
 int main(int argc, char **argv)
 {
 	args a(argc, argv);
 	std::string mode = a.str("mode", "random");
-	if (mode == "exhaust") mode_exhaust(a);
+	if (mode == "bigtable") mode_bigtable(a);
+	else if (mode == "exhaust") mode_exhaust(a);
 	else if (mode == "iface") mode_iface(a);
 	else mode_random(a);
 	O().count("clock_reads", vclock::calls());
